@@ -41,6 +41,7 @@ func runC05(c *Ctx) {
 	r.Doc("P5", "(= B4) the number of vacant handlers is HandlersQuantity - sum(actual): handlers whose release was not read yet are not vacant", 2)
 	r.Doc("P6", "(= B13) HandlersQuantity reaches the inner discipline as configured (the shares are shares of the handlers that exist)", 2)
 	r.Doc("P8", "(= B3) the allotment map is written only by its reset, the checked divisions, the top-up and the per-item decrement", 12)
+	r.Doc("P11", "(= N3) round structure: wait -> spend -> re-divide the remainder -> spend again when filled; no phase is skipped for another reason", 2)
 	r.Doc("P10", "(= B9) actual[k] -= 1 exactly once per release received, where it is received: no handler is counted busy after its release was read", 7)
 	r.Doc("P7", "(= N2 no-proceed) the round start answers 'cannot proceed' only when no handler is vacant", 2)
 	r.Doc("P4", "the pass over an input ends only when its allotment is spent, nothing is buffered / two ticks passed, it is closed, or a stop fired (so an unspent allotment means 'no data')", 4)
@@ -64,6 +65,14 @@ func runC05(c *Ctx) {
 		for _, o := range subp.R.Obls {
 			if strings.Contains(o.Key, "#remainder") {
 				c.R.Check(o.OK, "P3", strings.TrimPrefix(o.Key, "N3@"), o.Site, o.Detail, o.Detail)
+			}
+		}
+		// P11 (= N3): the round keeps its structure: the spending pass is made whenever the
+		// allotment was established (a pass skipped because the output buffer is full leaves the
+		// allotment unspent: it reads as "no data", and the handlers go to priorities on their share)
+		for _, o := range subp.R.Obls {
+			if !strings.Contains(o.Key, "#remainder") {
+				c.R.Check(o.OK, "P11", strings.TrimPrefix(o.Key, "N3@"), o.Site, o.Detail, o.Detail)
 			}
 		}
 		checkP2c(c, pr)
@@ -1094,48 +1103,7 @@ func runC17(c *Ctx) {
 		}
 		r.Check(len(problems) == 0, "R1", p.FnKey(m), p.Pos(m.Pos()), "one plain blocking send of the command built from the arguments", strings.Join(problems, "; "))
 	}
-	// R2
-	// (the control select may sit in the loop function or in a helper it calls)
-	for _, loop := range pr.rt.Funcs {
-		for _, s := range Selects(loop) {
-			for _, cs := range p.SelectInfo(s).Cases {
-				role := p.chanRole(cs.State.Chan)
-				if role != "field:inputAdds" && role != "field:inputRmvs" {
-					continue
-				}
-				key := p.FnKey(loop) + "#" + strings.TrimPrefix(role, "field:")
-				ok := false
-				why := "the clause body does not apply the command"
-				if cs.Body != nil && cs.RecvVal != nil {
-					for _, in := range cs.Body.Instrs {
-						call, isCall := in.(*ssa.Call)
-						if !isCall {
-							continue
-						}
-						cal := p.Callee(call)
-						if cal == nil || !p.IsProduct(cal) {
-							continue
-						}
-						// arguments come from the received command
-						fromCmd := false
-						for _, a := range call.Call.Args {
-							s := p.Sym(a)
-							if s.V == ssa.Value(cs.RecvVal) || (s.Op == "field" && s.Args[0].V == ssa.Value(cs.RecvVal)) {
-								fromCmd = true
-							}
-						}
-						touches := p.mayWriteMapField(cal, "inputs")
-						if fromCmd && touches {
-							ok = true
-						} else if fromCmd {
-							why = "the handler " + cal.Name() + " does not update the input table"
-						}
-					}
-				}
-				r.Check(ok, "R2", key, p.InstrPos(s), "command applied in its clause", why)
-			}
-		}
-	}
+	checkCommandsApplied(c, pr, "R2")
 	// R3a: removal deletes the entry keyed by the command
 	okDel := false
 	for _, fn := range pr.rt.Funcs {
@@ -2133,4 +2101,54 @@ func (p *Prog) filledByContainsFunc(fn *ssa.Function) (ok bool, why string, is b
 		return false, "the element predicate is not tactic[p] == 0 for the visited priority", true
 	}
 	return true, "", true
+}
+
+// checkCommandsApplied (C17/R2 = C02/X17): a received AddInput / RemoveInput command is applied
+// inside its clause, unconditionally, before the clause is left (an addition that is received but
+// skipped - "not while a graceful stop is pending" - leaves the channel unregistered: what is
+// written to it is never delivered although AddInput returned).
+func checkCommandsApplied(c *Ctx, pr *prioRoles, rule string) {
+	p := pr.p
+	// R2
+	// (the control select may sit in the loop function or in a helper it calls)
+	for _, loop := range pr.rt.Funcs {
+		for _, s := range Selects(loop) {
+			for _, cs := range p.SelectInfo(s).Cases {
+				role := p.chanRole(cs.State.Chan)
+				if role != "field:inputAdds" && role != "field:inputRmvs" {
+					continue
+				}
+				key := p.FnKey(loop) + "#" + strings.TrimPrefix(role, "field:")
+				ok := false
+				why := "the clause body does not apply the command"
+				if cs.Body != nil && cs.RecvVal != nil {
+					for _, in := range cs.Body.Instrs {
+						call, isCall := in.(*ssa.Call)
+						if !isCall {
+							continue
+						}
+						cal := p.Callee(call)
+						if cal == nil || !p.IsProduct(cal) {
+							continue
+						}
+						// arguments come from the received command
+						fromCmd := false
+						for _, a := range call.Call.Args {
+							s := p.Sym(a)
+							if s.V == ssa.Value(cs.RecvVal) || (s.Op == "field" && s.Args[0].V == ssa.Value(cs.RecvVal)) {
+								fromCmd = true
+							}
+						}
+						touches := p.mayWriteMapField(cal, "inputs")
+						if fromCmd && touches {
+							ok = true
+						} else if fromCmd {
+							why = "the handler " + cal.Name() + " does not update the input table"
+						}
+					}
+				}
+				c.R.Check(ok, rule, key, p.InstrPos(s), "command applied in its clause", why)
+			}
+		}
+	}
 }
